@@ -186,6 +186,67 @@ func analyseWalk(gc *GCNF, k int, foreign map[string]lin) (walkInfo, []string, b
 		}
 	}
 	if cslot < 0 {
+		// no ±1 counter. A loop that hops a pointer through its own next/prev and whose continuation condition compares a
+		// loop variable that every round leaves unchanged (or moves by more than the one hop the pointer makes) is a counted
+		// walk whose counter is out of step: it can only end by running off the chain
+		ownHops := 0
+		for j := 0; j < n; j++ {
+			for _, b := range backs {
+				if j < len(b.Exit.Args) {
+					bv := b.Exit.Args[j]
+					if bv.Op == "load" && len(bv.Args) == 1 && bv.Args[0].Op == "fa" && (bv.Args[0].Leaf == "next" || bv.Args[0].Leaf == "prev") && len(bv.Args[0].Args) == 1 && bv.Args[0].Args[0].String() == phi(j) {
+						ownHops++
+						break
+					}
+				}
+			}
+		}
+		if ownHops == 0 {
+			return walkInfo{}, nil, false
+		}
+		var bad []string
+		for j := 0; j < n; j++ {
+			constStep, first, ok := 0, true, true
+			for _, b := range backs {
+				if j >= len(b.Exit.Args) {
+					ok = false
+					break
+				}
+				d := linOf(b.Exit.Args[j]).add(linAtom(phi(j)), -1)
+				if len(d.c) != 0 || (!first && d.k != constStep) {
+					ok = false
+					break
+				}
+				constStep, first = d.k, false
+			}
+			if !ok || first || constStep == 1 || constStep == -1 {
+				continue
+			}
+			// the slot must be what the continuation condition (a guard of every back edge) compares
+			inCond := true
+			for _, b := range backs {
+				has := false
+				for _, a := range b.Guards {
+					if len(a.Args) == 2 && (a.Args[0].String() == phi(j) || a.Args[1].String() == phi(j)) {
+						has = true
+					}
+				}
+				if !has {
+					inCond = false
+				}
+			}
+			if !inCond {
+				continue
+			}
+			if constStep == 0 {
+				bad = append(bad, fmt.Sprintf("loop %d: the walk's continuation condition tests %s, which no round changes, while the pointer hops through its own link — the walk cannot stop on the list", k, phi(j)))
+			} else {
+				bad = append(bad, fmt.Sprintf("loop %d: the counter %s moves by %d per round while the pointer makes one hop — pointer and counter are out of step", k, phi(j), constStep))
+			}
+		}
+		if len(bad) > 0 {
+			return walkInfo{describe: fmt.Sprintf("loop %d has no counter in step with its pointer", k)}, bad, true
+		}
 		return walkInfo{}, nil, false
 	}
 	S := linAtom("(load (fa:size p:0))")
